@@ -280,4 +280,9 @@ def classify(case, fails):
         return "link-error-leaves-cycle-linked", fails[0]
     if s["tla_under_cycle"] and kind in ("deps-first", "order", "outcome", "twice", "rerun"):
         return "tla-cycle-wrong-order", fails[0]
+    if s["sync_thrower_over_async"] and kind in ("deps-first", "outcome"):
+        # a synchronous importer of an async module threw when run from AsyncModuleExecutionFulfilled, and its own
+        # importers ran / fulfilled anyway (GatherAvailableAncestors emptied [[AsyncParentModules]]); on the unrepaired
+        # tree this situation panics first (async-dep-throwing-importer-panic)
+        return "async-dep-throwing-importer-dependents-not-rejected", fails[0]
     return kind, fails[0]
